@@ -141,6 +141,13 @@ SITES = {
                                                                  "    ! is-empty"]),
     'setup-file-from-program-transformed-by-run': ('setup', ["file out2.txt = -stdout-from % generator",
                                                              "    -transformed-by run % SITE"]),
+    # file-creating instructions outside [setup] (their main-step result is translated per phase)
+    'assert-file-from-program': ('assert', ['file out3.txt = -stdout-from $ SITE']),
+    'assert-file-contents-of-transformed-by-run': ('assert', ["file out4.txt = -contents-of -rel-act in.txt",
+                                                              "    -transformed-by run % SITE"]),
+    'assert-dir-with-file-from-program': ('assert', ['dir d3 = {', '    file f.txt = -stdout-from % SITE', '}']),
+    'ba-dir-with-file-from-program': ('before-assert', ['dir d4 = {', '    file f.txt = -stdout-from $ SITE', '}']),
+    'cleanup-file-from-program': ('cleanup', ['file out5.txt = -stderr-from % SITE']),
 }
 
 # where the timeout instruction(s) stand relative to the site
